@@ -15,6 +15,7 @@ type propFunc func(r *Run, verifDir string)
 
 var props = map[string]propFunc{
 	"C05": runC05,
+	"C06": runC06,
 	"C17": runC17,
 }
 
